@@ -86,6 +86,9 @@ SPEC = {
          "configs": {n: {"quick": 24, "thorough": 800} for n in _MX}, "chunk": 8},
     ],
     "extra": _extra,
+    # per-shard wall-clock watchdog (inconclusive by itself; a hang is reported as watchdog.hang): a seeded change that makes
+    # a Z_p reduction loop for ever must not cost the default 1800 s per shard
+    "timeout": {"quick": 600, "thorough": 3600},
     "floors": {"quick": {"scenario.copy_ctor": 200, "scenario.move_assign": 200, "scenario.self_copy_assign": 100, "scenario.serialize": 200,
                          "state.source_upper_bound_stale": 100, "cmp.deserialize_truncated": 1000, "steps.divergent": 5000,
                          "_distinct_nontrivial": 1000, "cmp.matrix_independence": 1500, "cmp.matrix_moved_from_reuse": 500, "op.matrix_remove_last": 100,
